@@ -380,6 +380,66 @@ def check_valid_target(ctx, text_lines, version, what):
     return True
 
 
+def edited_then_converted_1to2(ctx, g, lines, vlevel):
+    """after the first conversion (everything has been computed once): the length of a segment without
+    sequence is changed, or a link is disconnected, given another overlap and added again; the second
+    conversion must equal the conversion of a Gfa parsed afresh from what the Gfa writes."""
+    import random
+    rng = random.Random(len(repr(lines)) * 17 + vlevel)
+    how = rng.choice(["LN", "overlap"])
+    links = [l for l in g.lines if l.record_type == "L" and not l.virtual]
+    if not links:
+        return
+    l = rng.choice(links)
+    if how == "LN":
+        seg = rng.choice([l.from_segment, l.to_segment])
+        try:
+            if not gfapy.is_placeholder(seg.sequence) or seg.LN is None:
+                return
+            new = int(seg.LN) + rng.randint(1, 9)
+        except Exception:
+            return
+        rr = call(ctx, "segment.LN = n", lambda: setattr(seg, "LN", new))
+    else:
+        try:
+            ov = str(l.overlap)
+        except Exception:
+            return
+        if ov == "*":
+            return
+        newov = "1M" if ov != "1M" else "2M"
+
+        def edit():
+            # (paths over the link go with it)
+            l.disconnect()
+            l.set("overlap", newov)
+            g.add_line(l)
+        rr = call(ctx, "disconnect;edit;add_line(same object)", edit)
+    if not rr.ok:
+        return
+    ctx.count("conversions_after_edit")
+    text = [O.safe_str(x) for x in g.lines if not x.virtual]
+    c1 = call(ctx, "to_gfa2_s (edited Gfa)", g.to_gfa2_s)
+    text = [O.safe_str(x) for x in g.lines if not x.virtual]      # (the conversion names the links)
+    fr = call(ctx, "Gfa(text of the edited Gfa)", gfapy.Gfa, list(text), version="gfa1", vlevel=vlevel)
+    if not fr.ok:
+        return
+    c2 = call(ctx, "to_gfa2_s (fresh parse)", fr.value.to_gfa2_s)
+    if c1.ok != c2.ok:
+        ctx.violation("conversion-depends-on-history/%s-vs-%s" % (c1.cls(), c2.cls()),
+                      "after %s: the Gfa converts -> %s, a fresh parse of its text -> %s\n text %r"
+                      % (how, c1.cls() if not c1.ok else "ok", c2.cls() if not c2.ok else "ok", text))
+        return
+    if c1.ok:
+        norm = lambda t: sorted(repr(x) for x in S.canon_doc(S.split_doc(t), "gfa2"))
+        a, bq = norm(c1.value), norm(c2.value)
+        if a != bq:
+            ma = [x for x in a if x not in bq]
+            mb = [x for x in bq if x not in a]
+            ctx.violation("conversion-depends-on-history/1to2/%s" % how,
+                          "after the edit (%s): edited Gfa gives %r, fresh parse gives %r\n text %r" % (how, ma[:3], mb[:3], text))
+
+
 def run_1to2(case, ctx):
     lines, vlevel = case["lines"], case["vlevel"]
     r = build(ctx, lines, "gfa1", vlevel)
@@ -387,6 +447,16 @@ def run_1to2(case, ctx):
         ctx.violation("valid-document-refused/%s" % r.cls(), "%r: %s" % (lines, str(r.exc)[:200]), prop="C01")
         return
     g = r.value
+    if len(repr(lines)) % 3 == 0:
+        try:
+            return _run_1to2(case, ctx, g)
+        finally:
+            edited_then_converted_1to2(ctx, g, lines, vlevel)
+    return _run_1to2(case, ctx, g)
+
+
+def _run_1to2(case, ctx, g):
+    lines, vlevel = case["lines"], case["vlevel"]
     recs1 = [S.parse_line(l, "gfa1") for l in lines]
     lens = CV.seg_lengths(recs1, "gfa1")
     c = call(ctx, "to_gfa2_s", g.to_gfa2_s)
